@@ -179,6 +179,12 @@ def gen_history(rng, tier):
                     refusing = rng.range(50, 400)
             refusing = max(0, refusing - 1)
             lines.append(gen_op(rng, op, sizes, kinds, st))
+    # one history in 30: a chain deeper than the marker's recursion bound, linked through first words,
+    # built at a seeded point of the history and followed by a collection sooner or later
+    if rng.chance(1, 30):
+        at = rng.range(1, len(lines))
+        lines.insert(at, "k %d %d" % (rng.range(4100, 7000) if rng.chance(2, 3) else rng.range(8200, 13000), rng.choice([16, 24, 32, 48, 64, 200, 300])))
+        lines.insert(min(len(lines), at + 1 + rng.loguniform(1, 30)), "g")
     # collections, audits and full checks cost O(heap): bound their number in long histories
     if n > 1500:
         quota = {"g": 150, "u": 150}
